@@ -293,3 +293,15 @@ Theorem translated_autostream_auto_undecided : forall cf raw,
 Proof.
   intros cf raw Hd. rewrite g_as_auto_eq, g_as_new_eq. unfold auto_new. rewrite Hd. split; reflexivity.
 Qed.
+
+Theorem translated_accessors : forall cf m s w,
+  g_as_current_choice cf (as_of m s w) = Some (current_choice m) /\
+  g_as_into_inner cf (as_of m s w) = Some w /\
+  g_as_is_terminal cf (as_of m s w) = Some (ac_tty cf) /\
+  g_as_lock_stdout cf (as_of m s w) = Some (as_of m s w) /\
+  g_as_lock_stderr cf (as_of m s w) = Some (as_of m s w).
+Proof.
+  intros cf m s w.
+  exact (conj (g_as_current_choice_of cf m s w) (conj (g_as_into_inner_of cf m s w)
+        (conj (g_as_is_terminal_eq cf (as_of m s w)) (conj (g_as_lock_stdout_eq cf _) (g_as_lock_stderr_eq cf _))))).
+Qed.
